@@ -38,6 +38,7 @@ CONSTANTS Ids,          \* document ids
           MaxEp, MaxSid,
           WithReader, WithCopy, WithMerger, WithPurge, WithMemMerge,
           MaxMergeInputs, \* bound on the size of one merge task (0 = any)
+          WithMergeFail, \* TRUE: a file merge may fail / be cancelled after its output was written
           MaxOpens,      \* bound on the number of reader / copy opens (keeps simulation from toggling them forever)
           AsyncRelease   \* TRUE: eligibility for removal is recorded by an asynchronous step (as in the code);
                          \* FALSE: an epoch is eligible as soon as nobody holds it (most aggressive purging)
@@ -292,6 +293,18 @@ MClean ==
                  mSnap, mTask, mNew, bolt, disk, elig, rdr, cPc, cSnap, cSched, cCopied, nopen>>
   /\ dirty' = TRUE
 
+\* a merge that fails or is cancelled after the new file was written (I/O error,
+\* ForceMerge with a cancelled context): only the NEW name is un-marked; the inputs
+\* are still in the root and keep whatever protection they had.  The request may
+\* be retried on the same root (lastM unchanged).
+MFail ==
+  /\ WithMergeFail /\ mPc = "intro"
+  /\ inel' = inel \ {mNew}
+  /\ mPc' = "idle"
+  /\ UNCHANGED <<batch, nsub, intro, segdocs, root, nextEp, nextSid, wst, pend, acked, pPc, pSnap, pAcks, pNew, lastP,
+                 mSnap, mTask, mNew, lastM, bolt, disk, elig, rdr, cPc, cSnap, cSched, cCopied, nopen>>
+  /\ dirty' = TRUE
+
 \* ---------------- reader ----------------
 ROpen == /\ WithReader /\ rdr = NoSnap /\ root.ep > 0 /\ rdr' = root /\ nopen < MaxOpens /\ nopen' = nopen + 1
          /\ UNCHANGED <<batch, nsub, intro, segdocs, root, nextEp, nextSid, wst, pend, acked, pPc, pSnap, pAcks, pNew, lastP,
@@ -323,7 +336,7 @@ Next == \/ \E w \in Writers, bt \in BatchShapes : Prepare(w, bt)
         \/ \E w \in Writers : IntroSegment(w) \/ BatchReturn(w)
         \/ PTake \/ PMMWrite \/ PMMIntro \/ PMMCommit \/ PWrite \/ PIntro \/ PCommit \/ PAck
         \/ (WithPurge /\ ((\E e \in 1..MaxEp : Release(e)) \/ PWakePurge \/ PPurgeB \/ PPurgeZ))
-        \/ MTake \/ (\E T \in SUBSET Files(mSnap) : MPlanWrite(T)) \/ MIntro \/ MClean
+        \/ MTake \/ (\E T \in SUBSET Files(mSnap) : MPlanWrite(T)) \/ MIntro \/ MClean \/ MFail
         \/ ROpen \/ RClose \/ COpen \/ (\E s \in 1..MaxSid : CFile(s)) \/ CClose
 Spec == Init /\ [][Next]_vars
 
@@ -347,6 +360,14 @@ ReaderStable == [][(rdr # NoSnap /\ rdr' = rdr) => LiveDocs(rdr)' = LiveDocs(rdr
 
 \* C13: every persisted snapshot is a state the index really had
 EveryBoltIsAState == \A e \in BoltEps : LiveDocs(bolt[e]) = Replay(bolt[e].k)
+
+\* C12, one level below the disk: every file segment the root uses is protected
+\* from the purger at every moment - named by a recorded snapshot, marked
+\* ineligible for removal, or written by the persister in the round it has not
+\* committed yet (the persister is the purger, so that window is safe)
+RootFilesProtected ==
+  \A f \in Files(root) : \/ f \in Named \/ f \in inel
+                          \/ (pPc = "commit" /\ f \in MemSids(pSnap))
 
 \* C03: what a kill at this instant recovers
 RecEp == RecEpOf(bolt, disk)
